@@ -357,3 +357,19 @@ Theorem wire_tamper_detected_any_bytes :
   is_ok (wire_verify env_decode verify peer_id peerid_eqb (A.ideal_H Hf) decode_pid st' w) = false.
 Proof. exact wire_decoded_tamper. Qed.
 Print Assumptions wire_tamper_detected_any_bytes.
+
+(* ================================================================== *)
+(* Signing histories.  Sign / SignWithExtendedProviders assign the advertisement's and every
+   entry's Signature unconditionally: what signing produces depends on the signed values and
+   the keys only, never on signatures the value already carries (a value signed before,
+   decoded from a block, or used as the template of the next advertisement).  Together with
+   sign_verify: re-signing after any change of a signed value verifies.  For ALL primitives,
+   no premise. *)
+Theorem resign_overwrites_stale_signatures :
+  forall (privkey pubkey sigt : Type) (pub : privkey -> pubkey) (sign : privkey -> bytes -> sigt)
+         (H : bytes -> res bytes) (a b : ad pubkey sigt) (k : privkey) (fetch : bytes -> res privkey),
+  erase_sigs a = erase_sigs b ->
+  sign_plain pub sign H a k = sign_plain pub sign H b k /\
+  sign_with_eps pub sign H a k fetch = sign_with_eps pub sign H b k fetch.
+Proof. exact resign_same_values. Qed.
+Print Assumptions resign_overwrites_stale_signatures.
